@@ -95,7 +95,10 @@ InstanceOk(sys, I, m) ==
 (* Subsets: with the trivial symmetries of the explicit matrix every (view, segment) is basic, *)
 (* and subset s of N consists of the views  minView + s, minView + s + N, ...  (all segments,  *)
 (* all TOF positions).  s = -1 stands for the full data.                                       *)
-InSub(sys, I, b, s) == s = -1 \/ (View(sys, b) - sys.minView) % I.N = s
+(* With a matrix that uses symmetries (sys.subkey given: the view of the basic view/segment pair *)
+(* of each bin, Subsets.tla) a subset consists of the ORBITS of the basic pairs with that view.  *)
+SubsetKey(sys, b) == IF "subkey" \in DOMAIN sys THEN sys.subkey[b] ELSE View(sys, b) - sys.minView
+InSub(sys, I, b, s) == s = -1 \/ SubsetKey(sys, b) % I.N = s
 Sel(sys, I, m, b, s) == m.used[b] /\ InSub(sys, I, b, s)
 
 (* back projection of a per-bin quantity g over the selected bins:  (P_S^T g)_v               *)
